@@ -12,14 +12,18 @@ import (
 // whose parameters (height, roles, anti-MEV, order of the echo) come from the tape, and then
 // hands the cluster over to the ordinary seeded network for the rest of the run.  The oracles
 // are the same as in every other run; the prefix only uses legal network behaviour (delays,
-// losses, one crash/restart of the one budgeted faulty validator of N=4).
+// losses, one crash/restart of one budgeted faulty validator of N=4 or N=7).
 
-func directedScenario(t *Tape) *Scenario {
+func directedScenario(t *Tape, amevOf3 uint64) *Scenario {
 	amev := int64(-1)
-	if t.Chance(SScen, 1, 3) {
+	if t.Chance(SScen, amevOf3, 3) {
 		amev = 0
 	}
-	sc := scriptScenario(4, amev)
+	n := 4
+	if t.Chance(SScen, 1, 4) {
+		n = 7
+	}
+	sc := scriptScenario(n, amev)
 	sc.Family = "directed"
 	sc.Start = uint32(t.Range(SScen, 0, 9))
 	sc.Heights = 2
@@ -33,15 +37,15 @@ func directedScenario(t *Tape) *Scenario {
 	sc.MaxEvents = 20000
 	sc.MaxTime = int64(sc.TPB) * 120
 	sc.MapOrder = int(t.Draw(SScen, 3))
-	x := int(t.Draw(SScen, 4))
+	x := int(t.Draw(SScen, uint64(n)))
 	sc.Fault[x] = FAmnesia
 	return sc
 }
 
 // directedRestartRun: see the comment at the top of the file.
-func directedRestartRun(arm func(*Sim)) func(*Tape, bool) *RunResult {
+func directedRestartRun(arm func(*Sim), amevOf3 uint64) func(*Tape, bool) *RunResult {
 	return func(t *Tape, record bool) *RunResult {
-		sc := directedScenario(t)
+		sc := directedScenario(t, amevOf3)
 		s := NewSim(sc, t)
 		s.record = record
 		s.manual = true
@@ -124,8 +128,9 @@ func (s *Sim) directedRestartPrefix() bool {
 		return false
 	}
 	// X alone collects M preparations and (pre)commits
+	m := x.d.M()
 	if x == prim {
-		for _, b := range others[:2] {
+		for _, b := range others[:m-1] {
 			s.give(b, req)
 			r := s.sentAt(b, dbft.PrepareResponseType, h, 0)
 			if r == nil {
@@ -134,24 +139,27 @@ func (s *Sim) directedRestartPrefix() bool {
 			s.give(x, r)
 		}
 	} else {
-		var b1 *Node
+		var rs []*Payload
 		for _, b := range others {
-			if b != prim {
-				b1 = b
-				break
+			if b == prim || len(rs) >= m-2 {
+				continue
 			}
+			s.give(b, req)
+			r := s.sentAt(b, dbft.PrepareResponseType, h, 0)
+			if r == nil {
+				return false
+			}
+			rs = append(rs, r)
 		}
-		s.give(b1, req)
-		r := s.sentAt(b1, dbft.PrepareResponseType, h, 0)
-		if r == nil {
-			return false
+		reqFirst := s.tape.Chance(SFault, 1, 2)
+		if reqFirst {
+			s.give(x, req)
 		}
-		if s.tape.Chance(SFault, 1, 2) {
+		for _, r := range rs {
 			s.give(x, r)
+		}
+		if !reqFirst {
 			s.give(x, req)
-		} else {
-			s.give(x, req)
-			s.give(x, r)
 		}
 	}
 	lockT := dbft.CommitType
